@@ -28,6 +28,8 @@ def canon(typ, tok, tab):
 
 
 def c_canon(typ, tok, tab):
+    if tok == "":
+        return "<nan:>"  # the option has no value: an empty token in every format
     n, _ = evalcheck.c_number(tok, typ, tab)
     if n in (evalcheck.BAD_N, evalcheck.ABSENT_N):
         return "<bad:%s>" % tok
@@ -262,7 +264,13 @@ def main(run):
     else:
         gen = ktree.generate(run.seed + 1300, 500)
         cap = 150
-    items = lat + gen
+    # options that have no value at all (a prompt, no default, no user value), with aliases
+    novalue = []
+    for typ in ("hex", "int", "string"):
+        t_ = ktree.mk_config("T", typ, prompt=["y"])
+        o_ = ktree.mk_config("O", "bool", prompt=["y"], defaults=[{"v": ["y"], "c": ["y"]}])
+        novalue.append({"prog": [o_, t_], "ord": [["s", "O"], ["s", "T"]], "vars": [{"n": "T", "kind": "sym", "cands": [ktree.NOVAL, {"hex": "0x1F", "int": "3", "string": "x"}[typ]]}], "family": "F-novalue"})
+    items = novalue + lat + gen
     cases, total = [], 0
     bad_presence = []
     strings = set()
